@@ -220,21 +220,10 @@ func padCase(b *base, texts []string, mask uint, pts []int, k int, thorough bool
 		o.Detail = map[string]interface{}{"base": baseSrc, "padded_len": len(padded), "points": pts, "kind": kindNames[k]}
 		return o
 	}
-	// self-checks of the twin: the marker rendering, with the markers taken out, is the base rendering;
-	// the base equals the corpus model
-	if b.bad != (kind(rBase) == "PARSEERR") {
-		return fail("base template: unexpected parse result", baseSrc, rBase, "")
-	}
-	if !b.bad {
-		if kind(rBase) != "OK" && !b.noModel {
-			return fail("base template does not render", baseSrc, rBase, "")
-		}
-		if !b.noModel {
-			_, _, trimmed, _ := b.build(texts, mask, styleSpaced)
-			if want := "OK:" + b.model(trimmed); rBase != want {
-				return fail("base rendering differs from the model", baseSrc, rBase, want)
-			}
-		}
+	// The base rendering is only a reference here: whether it is RIGHT is decided by C13 (dashes) and the
+	// per-construct properties. Self-check of the twin: the marker rendering, with the markers taken
+	// out, is the base rendering (this is the property itself for a 3-byte insertion).
+	{
 		stripped := rMark
 		for _, m := range marks {
 			stripped = strings.ReplaceAll(stripped, m, "")
@@ -243,6 +232,7 @@ func padCase(b *base, texts []string, mask uint, pts []int, k int, thorough bool
 			return fail("a 3-byte literal marker at the insertion point changes more than itself (below every threshold)", join(marks), rMark, rBase)
 		}
 	}
+	o.Counters["base_"+kind(rBase)]++
 	classes := map[string]bool{}
 	for _, total := range sizes(thorough) {
 		n := total - len(baseSrc)
